@@ -519,6 +519,9 @@ class Command:
                 curarg, avalue, check_extension
             )
             if condition:
+                if "tag" in curarg["type"] and curarg["name"] in self.arguments:
+                    # each tagged argument may only be given once
+                    raise BadArgument(self.name, avalue, "no more %s" % curarg["name"])
                 ext = curarg.get("extension")
                 condition = (
                     check_extension
